@@ -251,12 +251,14 @@ theorem derive_raises_iff (O : Oracles) {w : World} (hr : Reachable O w) {c : Cl
 
 /-- C12 (what is done with the other class-level settings): `_init_class_dict` copies `_fields`,
     `_ignore_none` and nothing else, so the derived class has NO `_additional_properties` /
-    `_immutable` of its own and reads typedpy's defaults through `Structure`: it admits additional
+    `_immutable` / `_serialization_mapper` / `_deserialization_mapper` of its own and reads typedpy's
+    defaults through `Structure`: it admits additional
     properties (its constructor has `**kwargs`) and is mutable — whatever the source declares or
     inherits (an `ImmutableStructure` source, `_additional_properties = False`) -/
 theorem derive_flags_not_copied {O : Oracles} {w : World} (hS : HasStructure w) {c d : ClassDef}
     {nm : String} {op : DeriveOp} (h : deriveClass O w c nm op = .ok d) :
-    d.ownAddl = none ∧ d.addl = true ∧ d.sig.kwargs = true ∧ d.ownImmutable = none ∧ d.immutable = false := by
+    d.ownAddl = none ∧ d.addl = true ∧ d.sig.kwargs = true ∧ d.ownImmutable = none ∧ d.immutable = false
+    ∧ d.ownMappers = [] := by
   unfold deriveClass at h
   rcases bindE_eq_ok h with ⟨src, hsrc, hd⟩
   rcases defineClass_ok hd with ⟨_, rfl⟩
@@ -270,7 +272,18 @@ theorem derive_flags_not_copied {O : Oracles} {w : World} (hS : HasStructure w) 
     rw [mroSeqs, hbd]; rfl
   have htail : mroTail w (derivedSrc c nm (derivedFields c op) (derivedRequired c op)) = ["Structure"] := by
     simp [mroTail, hseq, c3_structure]
-  refine ⟨rfl, ?_, ?_, rfl, ?_⟩
+  have hmap : ownMappersOf (derivedSrc c nm (derivedFields c op) (derivedRequired c op)).entries = [] := by
+    have : ∀ fs : List (String × Member), (objEntries fs).filter
+        (fun p => mapperNames.contains p.1 && isAttrEntry p.2) = [] := by
+      intro fs
+      induction fs with
+      | nil => rfl
+      | cons q qs ih => simpa [objEntries, isAttrEntry] using ih
+    show ((("_fields", SrcEntry.attr .list) :: objEntries (derivedFields c op)).filter
+        (fun p => mapperNames.contains p.1 && isAttrEntry p.2)).map (·.1) = []
+    have h0 : mapperNames.contains "_fields" = false := by decide
+    rw [List.filter_cons_of_neg (by rw [h0]; simp), this]; rfl
+  refine ⟨rfl, ?_, ?_, rfl, ?_, hmap⟩
   · show ((derivedSrc c nm _ _).addl.orElse fun _ => inheritedOpt w (·.ownAddl) (mroTail w _)).getD true = true
     rw [htail]
     simp [inheritedOpt, hS', World.builtin, derivedSrc]
